@@ -299,6 +299,14 @@ impl MapSim {
     fn hk(&self, id: u32) -> Hashed<K> {
         hashed(self.explicit, self.k(id))
     }
+    /// Indices >= 1_000_000 count from the end: 1_000_000 + k = len - 1 - k.
+    fn abs_index(&self, i: u32) -> usize {
+        if i >= 1_000_000 {
+            (self.model.len() as i64 - 1 - (i as i64 - 1_000_000)).max(0) as usize
+        } else {
+            i as usize
+        }
+    }
     fn model_pos(&self, id: u32) -> Option<usize> {
         self.model.iter().position(|(k, _)| *k == id)
     }
@@ -334,7 +342,8 @@ impl MapSim {
                 format!("{:?}", r.map(|(k, v)| (k.id, v.val)))
             }
             Op::RemoveIndex(i) => {
-                let r = self.map.shift_remove_index(*i as usize);
+                let idx = self.abs_index(*i);
+                let r = self.map.shift_remove_index(idx);
                 format!("{:?}", r.map(|(k, v)| (k.id, v.val)))
             }
             Op::Pop => format!("{:?}", self.map.pop().map(|(k, v)| (k.id, v.val))),
@@ -455,6 +464,7 @@ impl MapSim {
                 None => format!("{:?}", None::<(u32, i64)>),
             },
             Op::RemoveIndex(i) => {
+                let i = &(self.abs_index(*i) as u32);
                 if (*i as usize) < self.model.len() {
                     format!("{:?}", Some(self.model.remove(*i as usize)))
                 } else {
@@ -622,8 +632,12 @@ impl MapSim {
         Ok(())
     }
 
-    /// After an injected panic: relaxed model (see module doc), then re-synchronise.
-    fn check_after_panic(&mut self, op: &Op) -> Res {
+    /// After an injected panic the container must hold what a plain `Vec<(K, V)>` would hold after the
+    /// same panicking operation (std semantics): operations whose callbacks run before any mutation
+    /// leave it unchanged; `retain` keeps the decisions taken before the panic and everything from
+    /// the panicking element on; `sort_keys` leaves a permutation; `extend` has applied a prefix.
+    /// The model is then re-synchronised for the permutation / prefix cases.
+    fn check_after_panic(&mut self, op: &Op, fault: Option<(Cb, u64)>) -> Res {
         let actual: Vec<(u32, i64)> = self.map.iter().map(|(k, v)| (k.id, v.val)).collect();
         let mut seen = BTreeSet::new();
         for (k, _) in &actual {
@@ -631,25 +645,67 @@ impl MapSim {
                 return Err(format!("duplicate key {k} after a panic inside {op:?}"));
             }
         }
-        let mut allowed: BTreeSet<u32> = self.model.iter().map(|x| x.0).collect();
         match op {
-            Op::Insert(k, _) | Op::InsertUnique(k, _) | Op::OrInsertWith(k, _) | Op::AndModify(k, _) => {
-                allowed.insert(*k);
+            Op::Retain(m, r) => {
+                // The n-th closure call panicked: elements 0..n-1 were decided (and their value bumped).
+                let n = fault.map(|f| f.1 as usize).unwrap_or(1);
+                let (m, r) = ((*m).max(1), *r);
+                let mut want: Vec<(u32, i64)> = Vec::new();
+                for (i, (k, v)) in self.model.iter().enumerate() {
+                    if i + 1 < n {
+                        if k % m != r % m {
+                            want.push((*k, v + 1));
+                        }
+                    } else {
+                        want.push((*k, *v));
+                    }
+                }
+                if actual != want {
+                    return Err(format!("after a panic in the {n}-th call of the retain predicate the map holds {actual:?}, a plain list would hold {want:?}"));
+                }
+                self.model = want;
+            }
+            Op::SortKeys => {
+                let mut a = actual.clone();
+                let mut b = self.model.clone();
+                a.sort();
+                b.sort();
+                if a != b {
+                    return Err(format!("after a panic inside sort_keys the map is not a permutation of its old content: {actual:?} vs {:?}", self.model));
+                }
+                self.model = actual;
             }
             Op::Extend(a, n) => {
-                for i in 0..*n {
-                    allowed.insert((a + i) % self.universe);
+                // Some prefix of the items has been applied.
+                let mut ok = false;
+                for j in 0..=*n {
+                    let mut m2 = self.model.clone();
+                    for i in 0..j {
+                        let k = (a + i) % self.universe;
+                        let v = (a + i) as i64 + 500;
+                        match m2.iter().position(|x| x.0 == k) {
+                            Some(p) => m2[p].1 = v,
+                            None => m2.push((k, v)),
+                        }
+                    }
+                    if m2 == actual {
+                        ok = true;
+                        break;
+                    }
+                }
+                if !ok {
+                    return Err(format!("after a panic inside extend the map {actual:?} is not the old content plus a prefix of the new items (old {:?})", self.model));
+                }
+                self.model = actual;
+            }
+            _ => {
+                // Callbacks (Hash / Eq / closure) run before any mutation: nothing may have changed.
+                if actual != self.model {
+                    return Err(format!("after a panic inside {op:?} (before any mutation) the map changed: {actual:?} vs {:?}", self.model));
                 }
             }
-            _ => {}
         }
-        for (k, _) in &actual {
-            if !allowed.contains(k) {
-                return Err(format!("key {k} appeared from nowhere after a panic inside {op:?}"));
-            }
-        }
-        self.model = actual;
-        // Internal consistency: strict check against the re-synchronised model.
+        // Internal consistency: strict check against the (re-synchronised) model.
         self.check(true).map_err(|e| format!("inconsistent after a panic inside {op:?}: {e}"))
     }
 
@@ -683,7 +739,7 @@ impl MapSim {
                     Some((Cb::Closure, _)) => self.bump("fault.panic_in_closure"),
                     None => {}
                 }
-                self.check_after_panic(op)?;
+                self.check_after_panic(op, fault)?;
             }
         }
         let above = self.model.len() > 16;
@@ -712,7 +768,8 @@ fn gen_op(rng: &mut Rng, universe: u32, len: usize, bias_grow: bool) -> Op {
     match rng.below(16) {
         0 | 1 => Op::RemoveKey(k),
         2 => Op::RemoveEntry(k),
-        3 | 4 => Op::RemoveIndex(rng.below(len as u64 + 2) as u32),
+        3 => Op::RemoveIndex(rng.below(len as u64 + 2) as u32),
+        4 => Op::RemoveIndex(1_000_000 + rng.below(3) as u32),
         5 | 6 => Op::Pop,
         7 => Op::Retain(2 + rng.below(4) as u32, rng.below(4) as u32),
         8 => Op::SortKeys,
@@ -1131,13 +1188,13 @@ fn run_other(kind: &str, mode: u64, seed: u64, n: usize, o: &mut Outcome) -> Res
                             Err(_) => {
                                 o.bump("fault.panic_in_closure", 1);
                                 o.bump("fault.panic_in_callback", 1);
-                                // Relaxed: an order-preserving duplicate-free sub-sequence of the old content.
+                                // Exactly what a plain Vec would hold: decisions before the panicking
+                                // call applied, the panicking element and everything after it kept.
                                 let actual: Vec<(i64, u32)> = v2.iter().map(|(x, y)| (x.val, *y)).collect();
-                                let mut it = before.iter();
-                                for e in &actual {
-                                    if !it.any(|b| b == e) {
-                                        return Err(format!("step {step}: Vec2 after a panic in retain is not a sub-sequence of the old content: {actual:?} of {before:?}"));
-                                    }
+                                let n = fault.unwrap_or(1) as usize;
+                                let want: Vec<(i64, u32)> = before.iter().enumerate().filter(|(i, (_, y))| *i + 1 >= n || y % md != 0).map(|(_, e)| *e).collect();
+                                if actual != want {
+                                    return Err(format!("step {step}: Vec2 after a panic in the {n}-th call of the retain predicate holds {actual:?}, a plain Vec would hold {want:?}"));
                                 }
                                 model = actual;
                             }
@@ -1249,6 +1306,8 @@ fn exhaustive_alphabet() -> Vec<Op> {
     }
     v.push(Op::RemoveIndex(0));
     v.push(Op::RemoveIndex(9));
+    v.push(Op::RemoveIndex(1_000_000));
+    v.push(Op::RemoveIndex(1_000_001));
     v.push(Op::Pop);
     v.push(Op::Retain(5, 1));
     v.push(Op::SortKeys);
@@ -1316,7 +1375,7 @@ impl World for C11 {
     fn describe(&self) -> Describe {
         Describe {
             level: "exploration",
-            rule: "three kinds of run: (a) exhaustive = for base SmallMaps of 15, 16, 17 and 18 entries (around the 16-entry index threshold), hash modes {all-equal, sequential} and every 2-operation prefix, ALL operation sequences of length <= 2 (quick) or <= 3 (thorough) over an 18-letter alphabet (insert/remove/or_insert_with on present and absent keys, remove by index, pop, retain, sort, reverse, drop-index, clear, extend) - complete enumeration of histories up to length 4 resp. 5; (b) random SmallMap histories of up to 220 operations over <= 48 keys with adversarial hashes, through the plain and the pre-hashed API, with a panic injected into Hash/Eq/Ord/closure callbacks at the n-th call inside ~1 in 9 operations; (c) histories over SmallSet, OrderedMap/Set, SortedMap/Set/Vec, UnorderedMap/Set and Vec2 (with panics in retain/sort_by closures). After every step every lookup by key, by index and by position for every key of the universe is compared with a Vec model; non-trivial = history with >= 1 removal/sort/retain on an indexed map or an injected panic; distinct = digest of the operation list",
+            rule: "three kinds of run: (a) exhaustive = for base SmallMaps of 15, 16, 17 and 18 entries (around the 16-entry index threshold), hash modes {all-equal, sequential} and every 2-operation prefix, ALL operation sequences of length <= 2 (quick) or <= 3 (thorough) over an 20-letter alphabet (insert/remove/or_insert_with on present and absent keys, remove by index, pop, retain, sort, reverse, drop-index, clear, extend) - complete enumeration of histories up to length 4 resp. 5; (b) random SmallMap histories of up to 220 operations over <= 48 keys with adversarial hashes, through the plain and the pre-hashed API, with a panic injected into Hash/Eq/Ord/closure callbacks at the n-th call inside ~1 in 9 operations; (c) histories over SmallSet, OrderedMap/Set, SortedMap/Set/Vec, UnorderedMap/Set and Vec2 (with panics in retain/sort_by closures). After every step every lookup by key, by index and by position for every key of the universe is compared with a Vec model; non-trivial = history with >= 1 removal/sort/retain on an indexed map or an injected panic; distinct = digest of the operation list",
             sim_time_unit: "container operations executed (each followed by a full comparison with the model)",
             real_components: vec!["starlark_map::SmallMap / SmallSet / VecMap / Vec2 / OrderedMap / OrderedSet / SortedMap / SortedSet / SortedVec / UnorderedMap / UnorderedSet", "hashbrown index inside SmallMap"],
             stub_components: vec!["key type with simulator-chosen hash and panicking Hash/Eq/Ord", "tracked value type detecting double drops"],
@@ -1327,8 +1386,8 @@ impl World for C11 {
 
     fn budget(&self, tier: Tier) -> Budget {
         match tier {
-            Tier::Quick => Budget { runs: 5184 + 3000, wall_s: 120, block: 300, recheck: 48, hang_s: 120 },
-            Tier::Thorough => Budget { runs: 5184 + 400_000, wall_s: 1500, block: 600, recheck: 200, hang_s: 300 },
+            Tier::Quick => Budget { runs: 6400 + 3000, wall_s: 120, block: 300, recheck: 48, hang_s: 120 },
+            Tier::Thorough => Budget { runs: 6400 + 400_000, wall_s: 1500, block: 600, recheck: 200, hang_s: 300 },
         }
     }
 
@@ -1337,14 +1396,14 @@ impl World for C11 {
             "exhaustive_subspace": {
                 "complete": true,
                 "histories_enumerated": stats.get("exhaustive_histories").copied().unwrap_or(0),
-                "description": "all operation sequences up to length 4 (quick) / 5 (thorough) over the 18-letter alphabet, on base maps of 15..18 entries, hash modes all-equal and sequential",
+                "description": "all operation sequences up to length 4 (quick) / 5 (thorough) over the 20-letter alphabet, on base maps of 15..18 entries, hash modes all-equal and sequential",
             }
         })
     }
 
     fn generate(&self, seed: u64, index: u64, tier: Tier) -> Json {
         let alpha = exhaustive_alphabet().len() as u64; // 18
-        let n_ex = 4 * 2 * 2 * alpha * alpha; // sizes x modes x api x prefixes = 5184
+        let n_ex = 4 * 2 * 2 * alpha * alpha; // sizes x modes x api x prefixes
         if index < n_ex {
             let size = 15 + (index % 4);
             let mode = if (index / 4) % 2 == 0 { 0 } else { 2 };
